@@ -154,6 +154,10 @@ func (c *Cluster) execSynthStep(s *Step) {
 			c.addIdentity()
 		}
 		c.genesisSet = append([]*SimNode{}, c.nodes...)
+		if s.B > 0 && s.B < s.N {
+			// the last N-B identities are applicants, not genesis validators
+			c.genesisSet = append([]*SimNode{}, c.nodes[:s.B]...)
+		}
 		keys := []string{}
 		for _, m := range c.genesisSet {
 			keys = append(keys, m.pubHex)
@@ -189,6 +193,14 @@ func (c *Cluster) execSynthStep(s *Step) {
 			itx.Sign(cr.key)
 			itxs = []hg.InternalTransaction{itx}
 			c.stats.probe("synthetic-leave-request")
+		}
+		if s.Kind == "join" && s.N >= 0 && s.N < len(c.nodes) {
+			// the event carries the join request of applicant N, signed by the applicant
+			ap := c.nodes[s.N]
+			itx := hg.NewInternalTransactionJoin(*ap.peer())
+			itx.Sign(ap.key)
+			itxs = []hg.InternalTransaction{itx}
+			c.stats.probe("synthetic-join-request")
 		}
 		st.ts += s.D
 		ev := newEvent(cr, st.idx[s.A]+1, st.heads[s.A], op, txs, itxs, nil, st.ts)
@@ -319,6 +331,10 @@ func ringPlays(n, cycles int) []synthPlay {
 // before fix "fame quorum across a shrinking set"), finds a decision in the
 // first rounds of the smaller set that a lagging node would take the other way.
 func (c *Cluster) buildSynthLeaveDag(r *RNG) {
+	if r.Bool(0.3) {
+		c.buildSynthJoinDag(r)
+		return
+	}
 	n := 5
 	if r.Bool(0.2) {
 		n = 6
@@ -430,11 +446,17 @@ func addPlays(d *refDag, plays []synthPlay) {
 // lagging node would not take), z really decides and does not descend from y.
 func (c *Cluster) findNears(ref *instance) {
 	cid := map[string]int{}
-	for i, m := range c.genesisSet {
-		cid[m.pubHex] = i
+	for i, m := range c.nodes {
+		if m.idx < 1000 {
+			cid[m.pubHex] = i
+		}
 	}
-	d := newRefDag(len(c.genesisSet))
+	d := newRefDag(len(cid))
 	d.deep = true
+	if len(c.genesisSet) < len(cid) {
+		// applicants are not members until the reference instance says so
+		d.all = d.all[:len(c.genesisSet)]
+	}
 	if sets, err := ref.h.Store.GetAllPeerSets(); err == nil && len(sets) > 1 {
 		rounds := []int{}
 		byRound := map[int][]int{}
@@ -577,3 +599,82 @@ func (d *DagRecord) delayedOrder(r *RNG, base []*DagEvent) []*DagEvent {
 }
 
 var _ = hg.ROOT_DEPTH
+
+// buildSynthJoinDag: a history across a growing validator set (4 -> 5, 3 -> 4,
+// 6 -> 7). An early event of validator 0 carries the applicant's join request; a
+// regular prefix among the old validators commits it, which fixes the round R
+// of the larger set; in the continuation the applicant takes part. The
+// continuation is improved towards fragile votes as in the static case, the
+// reference model now using the per-round sets.
+func (c *Cluster) buildSynthJoinDag(r *RNG) {
+	old := []int{3, 4, 4, 4, 6}[r.Intn(5)]
+	n := old + 1
+	c.stats.probe("synthetic-join-history")
+	c.execSynthStep(&Step{Op: "synth-init", N: n, B: old})
+	first := []synthPlay{}
+	for i := 0; i < old; i++ {
+		first = append(first, synthPlay{i, -1})
+	}
+	for _, s := range c.playSteps(r, first) {
+		c.execSynthStep(s)
+	}
+	c.execSynthStep(&Step{Op: "synth", A: 0, B: 1, D: 1, Kind: "join", N: old})
+	prefix := append(append([]synthPlay{}, first...), synthPlay{0, 1})
+	R := -1
+	for try := 0; try < 4 && R < 0; try++ {
+		more := ringPlays(old, []int{5, 2, 2, 2}[try])
+		for _, s := range c.playSteps(r, more) {
+			c.execSynthStep(s)
+		}
+		prefix = append(prefix, more...)
+		probe := c.newInstance("probe", "inmem", 10000)
+		for _, e := range c.dag.order {
+			probe.insert(e)
+		}
+		if sets, err := probe.h.Store.GetAllPeerSets(); err == nil && probe.err == nil {
+			for rr, ps := range sets {
+				if len(ps) == n && (R < 0 || rr < R) {
+					R = rr
+				}
+			}
+		}
+		probe.close()
+	}
+	if R < 0 {
+		c.stats.probe("synthetic-join-not-committed")
+		return
+	}
+	small := make([]int, old)
+	for i := range small {
+		small[i] = i
+	}
+	eval := func(suffix []synthPlay) *refFame {
+		d := newRefDag(n)
+		all := d.all
+		d.members = func(rr int) []int {
+			if rr >= R {
+				return all
+			}
+			return small
+		}
+		addPlays(d, prefix)
+		addPlays(d, suffix)
+		return d.computeFame(int(hg.COIN_ROUND_FREQ), nil)
+	}
+	cur := gossipPlays(r, n, 60+r.Intn(15*n))[n:]
+	best := eval(cur)
+	iters := []int{1500, 4000, 8000}[r.Intn(3)]
+	for it := 0; it < iters; it++ {
+		cand := mutatePlays(r, n, 0, cur)
+		if f := eval(cand); f.score >= best.score {
+			cur, best = cand, f
+		}
+	}
+	if len(best.nears) > 0 {
+		c.stats.probe("synthetic-join-near-miss")
+	}
+	cur = append(cur, ringPlays(n, r.Range(4, 7))...)
+	for _, s := range c.playSteps(r, cur) {
+		c.execSynthStep(s)
+	}
+}
